@@ -148,6 +148,13 @@ fn c_request(req: &str) -> String {
 
 // ---------------------------------------------------------------------------------------- open
 
+/// number of mappings and of open descriptors of this process
+fn res_counts() -> (usize, usize) {
+    let maps = std::fs::read_to_string("/proc/self/maps").map(|s| s.lines().count()).unwrap_or(0);
+    let fds = std::fs::read_dir("/proc/self/fd").map(|d| d.count()).unwrap_or(0);
+    (maps, fds)
+}
+
 /// `open` / `open0`: the latter runs the two Rust opens with descriptor 0 closed (a client or daemon
 /// started without stdin: `open(2)` then legitimately returns 0)
 fn exec_open(toks: &[&str]) -> String {
@@ -163,8 +170,15 @@ fn exec_open(toks: &[&str]) -> String {
         Err(_) => "panic".into(),
     };
     let p2 = path.clone();
+    let p2b = path.clone();
     let r2 = match guarded(move || ClockBoundClient::new_with_path(&p2).map(|_| ())) {
-        Ok(Ok(())) => "ok".to_string(),
+        // dropping a client releases its mapping and descriptor: eight more cycles leave the process where it was
+        Ok(Ok(())) => {
+            let (m0, f0) = res_counts();
+            for _ in 0..8 { let _ = guarded(|| ClockBoundClient::new_with_path(&p2b).map(|_| ())); }
+            let (m1, f1) = res_counts();
+            if m1 >= m0 + 4 || f1 >= f0 + 4 { format!("ok leak {} {}", m1 - m0, f1 - f0) } else { "ok".to_string() }
+        }
         Ok(Err(e)) => client_err_text(&e),
         Err(_) => "panic".into(),
     };
